@@ -4,8 +4,10 @@ import (
 	"bytes"
 	"encoding/json"
 	"fmt"
+	"os/signal"
 	"sort"
 	"strings"
+	"syscall"
 	"time"
 
 	"github.com/brutella/hc/db"
@@ -286,6 +288,98 @@ func (r *c02Run) step(ev string) bool {
 	return r.checkStore(ev)
 }
 
+// c02DiskFull: the storage refuses writes (RLIMIT_FSIZE 0: every write fails with EFBIG) exactly while a genuine
+// key-exchange message is handled. Whatever the accessory answers, the stored pairings afterwards are a subset of
+// what was delivered, and a pairing that existed before — under the same or another name — is still there.
+func c02DiskFull(c *fw.Ctx) {
+	signal.Ignore(syscall.SIGXFSZ)
+	defer signal.Reset(syscall.SIGXFSZ)
+	var orig syscall.Rlimit
+	if syscall.Getrlimit(syscall.RLIMIT_FSIZE, &orig) != nil {
+		return
+	}
+	for _, variant := range []string{"same-name-new-key", "another-name"} {
+		c.Eval(1)
+		cas := c02Case{Pin: c02Pins[0], Hist: []string{"disk-full:" + variant}}
+		b, err := newBed(c, bedOpt{Pin: c02Pins[0]})
+		if err != nil {
+			c.Infra("bed: " + err.Error())
+			return
+		}
+		func() {
+			defer b.Close()
+			k, err := b.Dial()
+			if err != nil {
+				c.Infra(err.Error())
+				return
+			}
+			if _, ec, err := refctl.PairSetup(k, idL, b.Code, refctl.Seed32("df-a1")); err != nil || ec != 0 {
+				c.Infra(fmt.Sprintf("first pairing fails: %v %d", err, ec))
+				return
+			}
+			second := refctl.NewIdentity(idL.ID, "legit-L-second-key")
+			if variant == "another-name" {
+				second = refctl.NewIdentity("SECOND-CONTROLLER", "second")
+			}
+			k2, err := b.Dial()
+			if err != nil {
+				c.Infra(err.Error())
+				return
+			}
+			s := &refctl.Setup{}
+			m, _, err := k2.Do("POST", "/pair-setup", refctl.CTPairing, refctl.SetupM1())
+			if err != nil || s.ParseM2(m.Body) != nil {
+				c.Infra("second exchange: start fails")
+				return
+			}
+			m3, _ := s.M3(refctl.Seed32("df-a2"), b.Code)
+			if m, _, err = k2.Do("POST", "/pair-setup", refctl.CTPairing, m3); err != nil {
+				c.Infra("second exchange: verify fails")
+				return
+			}
+			if ec, err := s.ParseM4(m.Body); err != nil || ec != 0 {
+				c.Infra("second exchange: verify rejected")
+				return
+			}
+			lim := orig
+			lim.Cur = 0
+			syscall.Setrlimit(syscall.RLIMIT_FSIZE, &lim)
+			m, _, err = k2.Do("POST", "/pair-setup", refctl.CTPairing, s.M5(second))
+			syscall.Setrlimit(syscall.RLIMIT_FSIZE, &orig)
+			answer := "no response"
+			if err == nil {
+				answer = fmt.Sprintf("status %d", m.Status)
+				if ec, perr := s.ParseM6(m.Body); perr == nil {
+					answer += fmt.Sprintf(" M6 error %d", ec)
+				}
+			}
+			database, _ := db.NewDatabase(b.Dir)
+			es, lerr := database.Entities()
+			if lerr != nil {
+				c.Report("disk-full/store-unreadable/"+variant, "after a key exchange during which the storage refused writes the stored pairings cannot be read: "+lerr.Error(), cas)
+				return
+			}
+			stored := map[string][]byte{}
+			for _, e := range es {
+				stored[e.Name] = e.PublicKey
+			}
+			first, ok := stored[idL.ID]
+			switch {
+			case !ok:
+				c.Report("disk-full/existing-pairing-lost/"+variant, fmt.Sprintf("a key exchange during which the storage refused writes (answered with %s) removed the pairing of %s that existed before", answer, idL.ID), cas)
+			case variant == "another-name" && !bytes.Equal(first, idL.Pub):
+				c.Report("disk-full/existing-pairing-changed/"+variant, "the existing pairing's key changed", cas)
+			case variant == "same-name-new-key" && !bytes.Equal(first, idL.Pub) && !bytes.Equal(first, second.Pub):
+				c.Report("disk-full/existing-pairing-changed/"+variant, "the existing pairing's key is neither the old nor the delivered one", cas)
+			}
+			if k2v, ok := stored["SECOND-CONTROLLER"]; ok && !bytes.Equal(k2v, second.Pub) {
+				c.Report("disk-full/stored-key-differs/"+variant, "the new pairing is stored with a key that was not delivered", cas)
+			}
+			c.Class("disk-full:" + variant + ":" + answer)
+		}()
+	}
+}
+
 // checkStore compares the stored pairings with the model after every event.
 func (r *c02Run) checkStore(ev string) bool {
 	database, _ := db.NewDatabase(r.b.Dir)
@@ -397,6 +491,9 @@ func c02Run1(c *fw.Ctx) {
 		}()
 		defer func() { <-done }()
 	}
+	if c.Shard == 0 {
+		c02DiskFull(c)
+	}
 	depth := 3
 	n := 19
 	alpha := append(append([]string{}, c02Alphabet[:19]...), c02Alphabet[len(c02Alphabet)-2:]...)
@@ -479,7 +576,7 @@ func init() {
 	fw.Register(&fw.Check{
 		ID:    "C02",
 		Level: "model_checking",
-		Rule:  "every history of length 3 (quick, 21 symbols) / 4 (thorough, 26 symbols), plus every adversary-only history of length 5 (quick) / 7 (thorough) over 6 symbols around rejected SRP public keys, plus — from the non-initial state 'L has completed pairing' — every adversary history of length 2 (quick) / 3 (thorough) over 7 replay symbols, and — from the state 'L has proved the code and not yet exchanged keys' — every history of length 2 / 3 over the whole alphabet; successive systems of a worker process alternate between two setup codes and the adversary's wrong code is the other one, over the pair-setup alphabet on a legitimate connection L (knows the code) and an adversary connection X (sees all bytes, owns its keys, does not know the code): start; verify with right code, wrong code, A = 0 / N / 2N, proof missing, A missing, L's verify replayed, A = 0 with the proof for an empty session key; key-exchange genuine, L's genuine key-exchange delivered on another connection, sealed under the all-zero key / HKDF of an empty secret / the wrong-code secret / a random key, 0- and 15-byte payloads, tag flipped, L's key-exchange replayed; unknown method and states; reopen. Real transport over TCP with real SRP; a fresh system per history; after EVERY event the stored pairings (read through the database) must equal the model: the accessory's own entity plus exactly (L's id, L's key) iff L completed start → right-code verify → genuine key-exchange consecutively on its connection; proofs and M6 payloads must appear only when the model allows. In alternate systems the legitimate controller has a 124-byte identifier. Plus interleavings of the real /pair-setup and /pair-verify handlers of two connections under a cooperative scheduler (subprocess built with the overlay; scheduling points = every log statement of the library, every mutex Lock in hap and crypto, and the arrival of each request), iterative preemption bounding to 2 (quick) / 3 (thorough): two genuine key exchanges at once, a genuine key exchange next to a paired controller's pair-verify, next to an adversary's requests; after every schedule the stored pairings must be exactly those delivered. states = histories executed (each judges all its prefixes), distinct_nontrivial = distinct (event → response class) pairs",
+		Rule:  "every history of length 3 (quick, 21 symbols) / 4 (thorough, 26 symbols), plus every adversary-only history of length 5 (quick) / 7 (thorough) over 6 symbols around rejected SRP public keys, plus — from the non-initial state 'L has completed pairing' — every adversary history of length 2 (quick) / 3 (thorough) over 7 replay symbols, and — from the state 'L has proved the code and not yet exchanged keys' — every history of length 2 / 3 over the whole alphabet; successive systems of a worker process alternate between two setup codes and the adversary's wrong code is the other one, over the pair-setup alphabet on a legitimate connection L (knows the code) and an adversary connection X (sees all bytes, owns its keys, does not know the code): start; verify with right code, wrong code, A = 0 / N / 2N, proof missing, A missing, L's verify replayed, A = 0 with the proof for an empty session key; key-exchange genuine, L's genuine key-exchange delivered on another connection, sealed under the all-zero key / HKDF of an empty secret / the wrong-code secret / a random key, 0- and 15-byte payloads, tag flipped, L's key-exchange replayed; unknown method and states; reopen. Real transport over TCP with real SRP; a fresh system per history; after EVERY event the stored pairings (read through the database) must equal the model: the accessory's own entity plus exactly (L's id, L's key) iff L completed start → right-code verify → genuine key-exchange consecutively on its connection; proofs and M6 payloads must appear only when the model allows. In alternate systems the legitimate controller has a 124-byte identifier. A genuine key exchange during which the storage refuses every write (RLIMIT_FSIZE 0) leaves the pairings that existed before in place. Plus interleavings of the real /pair-setup and /pair-verify handlers of two connections under a cooperative scheduler (subprocess built with the overlay; scheduling points = every log statement of the library, every mutex Lock in hap and crypto, and the arrival of each request), iterative preemption bounding to 2 (quick) / 3 (thorough): two genuine key exchanges at once, a genuine key exchange next to a paired controller's pair-verify, next to an adversary's requests; after every schedule the stored pairings must be exactly those delivered. states = histories executed (each judges all its prefixes), distinct_nontrivial = distinct (event → response class) pairs",
 		Run:   c02Run1,
 		Replay: func(c *fw.Ctx, raw json.RawMessage) {
 			var pc pschedCase
@@ -489,6 +586,10 @@ func init() {
 			}
 			var cas c02Case
 			json.Unmarshal(raw, &cas)
+			if len(cas.Hist) == 1 && strings.HasPrefix(cas.Hist[0], "disk-full:") {
+				c02DiskFull(c)
+				return
+			}
 			if cas.Pin == "" {
 				cas.Pin = c02Pins[0]
 			}
